@@ -140,9 +140,7 @@ func (im *impl) do(op, arg string) (string, error) {
 		}
 		go k.Trap(func() {
 			im.grpcb.AcceptAndServe(id, func(opts []grpc.ServerOption) *grpc.Server {
-				s := grpc.NewServer(opts...)
-				grpctest.RegisterPingPongServer(s, &PingPong{Msg: fmt.Sprintf("id=%d", id), Sh: im.sh})
-				return s
+				return NewPingPongServer(opts, id, im.sh)
 			})
 		})
 		return "", nil
@@ -223,6 +221,24 @@ func (im *impl) do(op, arg string) (string, error) {
 			s.Serve(ln)
 		})
 		return "", nil
+	case "dialbig":
+		// dial id and fetch a large response through the brokered connection
+		ids, ns, _ := strings.Cut(arg, ":")
+		id64, _ := strconv.ParseUint(ids, 10, 32)
+		n, _ := strconv.Atoi(ns)
+		if im.grpcb == nil {
+			return "", errors.New("dialbig: gRPC only")
+		}
+		conn, err := im.grpcb.Dial(uint32(id64))
+		if err != nil {
+			return "", err
+		}
+		defer conn.Close()
+		got, err := BigOverConn(conn, n, 60*time.Second)
+		if err != nil {
+			return "", err
+		}
+		return strconv.Itoa(got), nil
 	case "dialkeep":
 		// dial, ping once, keep the connection for later "reping"
 		id64, _ := strconv.ParseUint(arg, 10, 32)
@@ -571,11 +587,28 @@ var Handshake = plugin.HandshakeConfig{
 	MagicCookieValue: "d1e7f4c2",
 }
 
-// NewPingPongServer builds a gRPC server answering "id=<n>".
+// NewPingPongServer builds a gRPC server answering "id=<n>"; it also carries
+// the command service (without brokers) so that large messages can be sent
+// over a brokered connection.
 func NewPingPongServer(opts []grpc.ServerOption, id uint32, sh *Shared) *grpc.Server {
 	s := grpc.NewServer(opts...)
 	grpctest.RegisterPingPongServer(s, &PingPong{Msg: fmt.Sprintf("id=%d", id), Sh: sh})
+	if sh == nil {
+		sh = NewShared("brokered")
+	}
+	s.RegisterService(&cmdServiceDesc, &grpcCmdServer{im: &impl{sh: sh, objTag: fmt.Sprintf("brokered%d", id)}})
 	return s
+}
+
+// BigOverConn asks the command service behind a brokered connection for n bytes.
+func BigOverConn(conn grpc.ClientConnInterface, n int, timeout time.Duration) (int, error) {
+	ctx, cancel := context.WithTimeout(context.Background(), timeout)
+	defer cancel()
+	out := new(grpctest.PongResponse)
+	if err := conn.Invoke(ctx, "/simharness.Cmd/Do", &grpctest.PongResponse{Msg: "big\x00" + strconv.Itoa(n)}, out); err != nil {
+		return 0, err
+	}
+	return len(out.Msg), nil
 }
 
 // GRPCConn is what PingConn needs.
